@@ -20,9 +20,9 @@ use std::time::Duration;
 
 const PROPS: &[&str] = &["C34", "C35"];
 
-fn full_menu(prune: Vec<u64>, report_highest: Vec<u64>) -> Menu {
+fn full_menu(prune: Vec<u64>, report_highest: Vec<u64>, all_positions: bool) -> Menu {
     Menu {
-        all_positions: false,
+        all_positions,
         timeouts: true,
         insert_head: true,
         backfill: true,
@@ -33,81 +33,55 @@ fn full_menu(prune: Vec<u64>, report_highest: Vec<u64>) -> Menu {
     }
 }
 
-fn cfgs(quick: bool) -> Vec<(Cfg, Explore)> {
-    let cap = |s: u64| Duration::from_secs(s);
+#[allow(clippy::too_many_arguments)]
+fn cfg(name: String, widths: &[u16], old: usize, initial: &[(u64, u64)], pre_sampled: &[u64], limit: usize, allowance: usize, menu: Menu, preset: Option<(u64, u64)>) -> Cfg {
+    Cfg {
+        name,
+        widths: widths.to_vec(),
+        old,
+        initial: initial.to_vec(),
+        pre_sampled: pre_sampled.to_vec(),
+        limit,
+        allowance,
+        horizon: 80,
+        menu,
+        preset_highest: preset.map(|p| p.0),
+        preset_backlog: preset.map(|p| p.1).unwrap_or(0),
+    }
+}
+
+/// (configuration, deviation bound); simplest first.
+fn cfgs(quick: bool) -> Vec<(Cfg, usize)> {
     let limits: [(usize, usize); 4] = [(1, 0), (1, 1), (2, 1), (3, 5)];
     let mut v = vec![];
-    for (limit, allowance) in limits {
+    let all = !quick;
+    for (l, a) in limits {
         // A: heights 1,2 older than the window; 1..=4 stored, 5 and 6 arrive later
-        v.push((
-            Cfg {
-                name: format!("A-old2-1to4-l{limit}+{allowance}"),
-                widths: vec![2; 6],
-                old: 2,
-                initial: vec![(1, 4)],
-                pre_sampled: vec![],
-                limit,
-                allowance,
-                horizon: 60,
-                menu: full_menu(vec![2, 3, 4], vec![4]),
-                preset_highest: None,
-                preset_backlog: 0,
-            },
-            Explore { bound: 2, wall_cap: cap(if quick { 25 } else { 200 }), max_execs: 5_000_000 },
-        ));
+        v.push((cfg(format!("A-old2-1to4-l{l}+{a}"), &[2; 6], 2, &[(1, 4)], &[], l, a, full_menu(vec![2, 3, 4], vec![4], all), None), 2));
+    }
+    for (l, a) in limits {
+        let deep = !quick || (l, a) == (1, 1) || (l, a) == (2, 1);
         // B: a gap (3 missing, backfilled later), 4 already sampled, 6 arrives later
         v.push((
-            Cfg {
-                name: format!("B-gap-l{limit}+{allowance}"),
-                widths: vec![2; 6],
-                old: 1,
-                initial: vec![(1, 2), (4, 5)],
-                pre_sampled: vec![4],
-                limit,
-                allowance,
-                horizon: 60,
-                menu: full_menu(vec![2, 5], vec![5]),
-                preset_highest: None,
-                preset_backlog: 0,
-            },
-            Explore { bound: if quick { 1 } else { 2 }, wall_cap: cap(if quick { 15 } else { 200 }), max_execs: 5_000_000 },
+            cfg(format!("B-gap-l{l}+{a}"), &[2; 6], 1, &[(1, 2), (4, 5)], &[4], l, a, full_menu(vec![2, 5], vec![5], all), None),
+            if deep { 2 } else { 1 },
         ));
         // C: the pruner already reports "everything up to 4 is prunable, backlog 512"
         v.push((
-            Cfg {
-                name: format!("C-ratelimited-l{limit}+{allowance}"),
-                widths: vec![2; 6],
-                old: 0,
-                initial: vec![(1, 5)],
-                pre_sampled: vec![],
-                limit,
-                allowance,
-                horizon: 60,
-                menu: full_menu(vec![3], vec![4, 6]),
-                preset_highest: Some(4),
-                preset_backlog: 512,
-            },
-            Explore { bound: if quick { 1 } else { 2 }, wall_cap: cap(if quick { 15 } else { 200 }), max_execs: 5_000_000 },
+            cfg(format!("C-ratelimited-l{l}+{a}"), &[2; 6], 0, &[(1, 5)], &[], l, a, full_menu(vec![3], vec![4, 6], all), Some((4, 512))),
+            if deep { 2 } else { 1 },
         ));
     }
     if !quick {
-        // deeper: three deviations on the smallest interesting system
-        for (limit, allowance) in [(1usize, 1usize), (2, 1)] {
+        // D: three deviations on the smallest interesting system
+        for (l, a) in [(1usize, 1usize), (2, 1)] {
+            v.push((cfg(format!("D-deep-l{l}+{a}"), &[2; 4], 1, &[(1, 3)], &[], l, a, full_menu(vec![2], vec![3], false), None), 3));
+        }
+        // E: a longer chain with two stored ranges and mixed widths
+        for (l, a) in [(2usize, 1usize), (3, 5)] {
             v.push((
-                Cfg {
-                    name: format!("D-deep-l{limit}+{allowance}"),
-                    widths: vec![2; 4],
-                    old: 1,
-                    initial: vec![(1, 3)],
-                    pre_sampled: vec![],
-                    limit,
-                    allowance,
-                    horizon: 50,
-                    menu: full_menu(vec![2], vec![3]),
-                    preset_highest: None,
-                    preset_backlog: 0,
-                },
-                Explore { bound: 3, wall_cap: cap(200), max_execs: 6_000_000 },
+                cfg(format!("E-long-l{l}+{a}"), &[2, 2, 4, 2, 2, 4, 2, 2], 2, &[(1, 3), (5, 6)], &[5], l, a, full_menu(vec![3, 6], vec![6], false), None),
+                2,
             ));
         }
     }
@@ -123,10 +97,18 @@ fn main() {
             machinery_error(&ctx.id, &e);
         }
     } else {
-        for (cfg, ex) in cfgs(ctx.quick()) {
+        let budget = ctx.tier.pick(100.0, 840.0);
+        for (cfg, bound) in cfgs(ctx.quick()) {
             let t = std::time::Instant::now();
+            let left = (budget - ctx.elapsed_s()).max(1.0);
+            let ex = Explore { bound, wall_cap: Duration::from_secs_f64(left), max_execs: 20_000_000 };
             if let Err(e) = explore_cfg(&cfg, &ex, PROPS, &stats, &mut rep) {
-                machinery_error(&ctx.id, &e);
+                // a violation found on the way is the more useful verdict
+                if rep.violation_count == 0 {
+                    machinery_error(&ctx.id, &e);
+                }
+                eprintln!("machinery problem after a violation: {e}");
+                break;
             }
             eprintln!("cfg {} done in {:.1}s (evaluations so far {})", cfg.name, t.elapsed().as_secs_f64(), rep.evaluations);
         }
@@ -136,7 +118,7 @@ fn main() {
         &ctx,
         rep,
         Spec {
-            rule: "E3: real Daser over InMemoryStore + mocked P2p; (limit, allowance) in {(1,0),(1,1),(2,1),(3,5)} x stores {A: heights 1..=4 stored, 1-2 older than the window, heads 5,6 arriving; B: 1-2 and 4-5 stored (3 backfilled later), 4 pre-sampled, head 6 arriving; C: 1..=5 stored with preset pruner reports highest=4, backlog=512}; events: answer oldest/newest outstanding request of any block in progress with a valid sample / RequestTimedOut, insert next head, backfill below the newest range, disconnect/reconnect, WantToPrune(h) and removal of granted heights, UpdateHighestPrunableHeight(v), UpdateNumberOfPrunableBlocks in {0,511,512}, advance clock 61 s / 5 h; every event sequence with <= 2 deviations (A; B and C: 1 in quick, 2 in thorough; thorough adds D: 3 stored of 4 heights, <= 3 deviations) from the default (answer the oldest request successfully, then insert the next head) is executed; the oracle runs after every event. distinct = distinct choice sequences; states = distinct observation traces",
+            rule: "E3: real Daser over InMemoryStore + mocked P2p; (limit, allowance) in {(1,0),(1,1),(2,1),(3,5)} x stores {A: heights 1..=4 stored, 1-2 older than the window, heads 5,6 arriving; B: 1-2 and 4-5 stored (3 backfilled later), 4 pre-sampled, head 6 arriving; C: 1..=5 stored with preset pruner reports highest=4, backlog=512}; events: answer the oldest/newest (quick) or any (thorough) outstanding request of any block in progress with a valid sample / RequestTimedOut, insert next head, backfill below the newest range, disconnect/reconnect, WantToPrune(h) and removal of granted heights, UpdateHighestPrunableHeight(v), UpdateNumberOfPrunableBlocks in {0,511,512}, advance clock 61 s / 5 h; every event sequence with <= 2 deviations (quick: B and C only 1 for the limits (1,0) and (3,5); thorough adds D: 3 stored of 4 heights, <= 3 deviations, and E: 8 heights of widths 2/4 in two stored ranges, <= 2 deviations) from the default (answer the oldest request successfully, then insert the next head) is executed; the oracle runs after every event. distinct = distinct choice sequences; states = distinct observation traces",
             assumptions: &[
                 "wall clock Time::now() is not seamed: header times are 1 h (inside) / 6 h (outside) old against a 4 h sampling window, so the window edge itself is not exercised",
                 "'known stored height' is read as: contained in the last answer the Daser got from Store::get_stored_header_ranges and still stored (headers backfilled below the head do not wake wait_new_head)",
